@@ -184,6 +184,24 @@ func containers() []item {
 	add("map:nil", types.NewMap(nil, nil))
 	add("map:nil", types.NewMap(nil, x))
 	add("map:nil", types.NewMap(x, nil))
+	// same-hash keys of different kinds mapped to nil (Get cannot tell "absent" from "present with nil":
+	// seeded change c14d compared maps through Get of the other map)
+	add("map:samehash-nil", types.NewMap(i1, nil))
+	add("map:samehash-nil", types.NewMap(i64_1, nil))
+	add("map:samehash-nil", types.NewMap(u64_1, nil))
+	add("map:samehash-nil", mutMap(u64_1, nil))
+	add("map:samehash-nil", types.NewMap(types.NewInt8(1), nil))
+	add("map:samehash-nil", types.NewMap(types.NewUint8(1), nil))
+	add("map:samehash-nil", types.NewMap(str(""), nil))
+	add("map:samehash-nil", types.NewMap(bin(""), nil))
+	add("map:samehash-nil", types.NewMap(str(""), nil, str("a"), i1))
+	add("map:samehash-nil", types.NewMap(bin(""), nil, str("a"), i1))
+	add("map:samehash-nil", types.NewMap(str(le1x8), nil, str("a"), x))
+	add("map:samehash-nil", types.NewMap(bin(le1x8), nil, str("a"), x))
+	add("slice:nested", types.NewSlice(types.NewMap(types.NewInt8(1), nil)))
+	add("slice:nested", types.NewSlice(types.NewMap(types.NewUint8(1), nil)))
+	add("map:nested", types.NewMap(types.NewMap(i1, nil), x))
+	add("map:nested", types.NewMap(types.NewMap(i64_1, nil), x))
 	// floats inside maps
 	add("map:nan", types.NewMap(str("k"), nan1))
 	add("map:nan", types.NewMap(str("k"), nan2))
@@ -315,7 +333,11 @@ func randVal(r *lib.RNG, sc []item, depth int) types.Value {
 		} else {
 			k = randVal(r, sc, depth-1)
 		}
-		ps = append(ps, k, randVal(r, sc, depth-1))
+		if r.Chance(1, 6) {
+			ps = append(ps, k, nil) // present with nil
+		} else {
+			ps = append(ps, k, randVal(r, sc, depth-1))
+		}
 	}
 	if r.Chance(1, 3) {
 		return mutMap(ps...)
